@@ -28,6 +28,9 @@ pub fn val_b(i: usize) -> bool {
 pub fn val_s(i: usize) -> String {
     format!("s{}", i)
 }
+pub fn val_x(i: usize) -> String {
+    format!("#a{}b1c2", i)
+}
 pub fn val_kh(_i: usize) -> TextHalign {
     TextHalign::right
 }
